@@ -10,9 +10,11 @@ package main
 //	                       last rule = default rule; event = (now ts size ((field value) ...)), field "k" = throttle key
 //	                       obs  = ((decision ...) final)   final = (0 (limiter-map key ...)) sorted | (2)
 //	which=2  parseLimitDistribution. case = (total (pct ...))   obs = (0 (default share ...)) | (1 err)
+//	which=3..8  threshold-crossing streams, see thresholds.go
 
 import (
 	"fmt"
+	"os"
 	"strings"
 	"time"
 
@@ -155,6 +157,16 @@ func c16Exec(which int, cs hx.Sx) hx.Sx {
 		return exec1(cs)
 	case 2:
 		return exec2(cs)
+	case 3:
+		return exec3(cs)
+	case 4:
+		return exec4(cs)
+	case 5:
+		return exec5(cs)
+	case 6:
+		return exec6(cs)
+	case 7, 8:
+		return exec7(cs)
 	}
 	panic("c16: unknown which")
 }
@@ -532,16 +544,43 @@ func examine(c *hmain.Ctx) {
 }
 
 func c16Gen(c *hmain.Ctx) {
-	genExhaustive(c)
-	genRandom(c)
-	genAdversarial(c)
-	genPlugin(c)
-	genShares(c)
+	// development aid: C16_ONLY=bulk,shared-conc runs only the named generators (the check never sets it)
+	only := os.Getenv("C16_ONLY")
+	on := func(name string) bool { return only == "" || strings.Contains(","+only+",", ","+name+",") }
+	// the expiry cases need seconds of real time: they run in the background while the other streams are generated
+	var exp []hx.Sx
+	if on("expiry") {
+		exp = expiryCases(c, hx.NewRng(c.Seed^0xC16E))
+	}
+	for _, cs := range exp {
+		expiryPrefetch(cs)
+	}
+	gens := []struct {
+		name string
+		f    func(*hmain.Ctx)
+	}{
+		{"exhaustive", genExhaustive}, {"random", genRandom}, {"adversarial", genAdversarial}, {"plugin", genPlugin}, {"shares", genShares},
+		// threshold-crossing streams (thresholds.go)
+		{"rules256", genManyRules256}, {"bulk", genBulk}, {"shared-seq", genSharedSeq}, {"time-wrap", genTimeWrap}, {"shared-conc", genSharedConc},
+		{"shares-many", genSharesMany}, {"shares-ratio", genSharesRatio}, {"shares-sum", genSharesSum},
+	}
+	for _, g := range gens {
+		if on(g.name) {
+			g.f(c)
+		}
+	}
+	for _, cs := range exp {
+		c.Do("expiry", 6, cs, true)
+		c.W.Count("expiry_cases")
+	}
+	for i := expiryReruns.Load(); i > 0; i-- {
+		c.W.Count("expiry_reruns_timing_assumption_failed")
+	}
 	examine(c)
 }
 
 func main() {
 	hmain.Run(&hmain.Prop{ID: "C16",
-		Rule: "exhaustive: every op sequence of the tier's length over a 12-point (clock, event time[, size | value]) domain for count/size/distributed limiters; random histories (5-60 ops, clock jumps across 0..3 windows and backwards, past/future/out-of-order event times, limits 0..5, both kinds, 0..3 ratios); adversarial (0 buckets, unlimited, clock inside the first window / before the epoch, extreme event times); whole plugin with rules and keys (0-3 rules, and lists of 25-60 rules whose keys recur under rules 26, 27 and 32 positions apart); parseLimitDistribution. Non-trivial = inside the property's domain (buckets >= 1, limit >= 0); distinct = distinct (sub-model, case) text.",
+		Rule: "exhaustive: every op sequence of the tier's length over a 12-point (clock, event time[, size | value]) domain for count/size/distributed limiters; random histories (5-60 ops, clock jumps across 0..3 windows and backwards, past/future/out-of-order event times, limits 0..5, both kinds, 0..3 ratios); adversarial (0 buckets, unlimited, clock inside the first window / before the epoch, extreme event times); whole plugin with rules and keys (0-3 rules, and lists of 25-60 rules whose keys recur under rules 26, 27 and 32 positions apart); parseLimitDistribution; threshold streams: 250-300 rules (rule index byte wraps at 256), run-length histories of thousands of ops with limits 5000 / 2^40 and 60-300 buckets, 2-4 Plugin instances sharing one pipeline's limiters map in sequence and concurrently, time fields that overflow UnixNano / are zero / do not parse, limiter expiry on the real clock, distribution ratios finer than a percent with 5-20 ratios and totals up to 2^60. Non-trivial = inside the property's domain (buckets >= 1, limit >= 0); distinct = distinct (sub-model, case) text.",
 		Gen:  c16Gen, Exec: c16Exec})
 }
